@@ -23,7 +23,7 @@ const char *const exec_props = "C01 C02 C03 C12";
 
 namespace {
 
-enum Shape { FREE = 0, BATCH = 1, READER_HEAVY = 2, ORDERING = 3, WRITER_FREE = 4, RENDEZVOUS = 5, TWO_RESOURCES = 6 };
+enum Shape { FREE = 0, BATCH = 1, READER_HEAVY = 2, ORDERING = 3, WRITER_FREE = 4, RENDEZVOUS = 5, TWO_RESOURCES = 6, LONG_BUSY = 7 };
 
 struct Req { int tid; bool w; long call = -1, park = -1, ret = -1, unl = -1; bool wseen = false; int nparks = 0; };
 
@@ -40,6 +40,7 @@ std::set<int> woken_pending;
 bool nt_c02 = false;
 const void *res_lo = nullptr, *res_hi = nullptr;
 int turn = 0;                 // ORDERING / RENDEZVOUS orchestration
+bool long_shape = false;      // LONG_BUSY: tens of thousands of requests; the quadratic pair analysis is skipped
 int barrier_in = 0, barrier_k = 0; bool barrier_done = false;
 
 const char *stname(vsched::St s) {
@@ -158,7 +159,7 @@ void do_op(Resource &res, const Op &o, int tid, bool rendezvous = false, std::fu
 void exec_case(const Case &c) {
     g_prop = c.prop;
     int shape = hget(c, 0, 0);
-    int nth = hget(c, 1, 3); if (nth < 1) nth = 1; if (nth > 8) nth = 8;
+    int nth = hget(c, 1, 3); if (nth < 1) nth = 1; if (nth > 14) nth = 14;
     for (int &x : cur_req) x = -1;
 
     Prog p; p.per.resize((size_t)nth);
@@ -168,8 +169,8 @@ void exec_case(const Case &c) {
         if (shape == WRITER_FREE) q.k = 0;
         p.per[(size_t)((unsigned)o.a % (unsigned)nth)].push_back(q);
     }
-    static const char *shapes[] = {"shape_free", "shape_batch", "shape_reader_heavy", "shape_ordering", "shape_writer_free", "shape_rendezvous", "shape_two_resources"};
-    label(shapes[shape >= 0 && shape <= 6 ? shape : 0]);
+    static const char *shapes[] = {"shape_free", "shape_batch", "shape_reader_heavy", "shape_ordering", "shape_writer_free", "shape_rendezvous", "shape_two_resources", "shape_long_busy_period"};
+    label(shapes[shape >= 0 && shape <= 7 ? shape : 0]);
 
     vsched::on_deadlock = on_deadlock; vsched::on_park = on_park; vsched::on_wake = on_wake; vsched::on_switch = on_switch; vsched::on_step_limit = on_steps;
     vsched::set_mode_pct(hget(c, 2, 0) == 1); if (hget(c, 2, 0) == 1) label("pct_schedule");
@@ -227,6 +228,29 @@ void exec_case(const Case &c) {
                     }
                 });
             }
+        } else if (shape == LONG_BUSY) {
+            // one long busy period on a long-lived Resource: every holder keeps the lock until all other unfinished threads are
+            // parked behind it, so the queue is never empty at an unlock and the ticket counters are never reset.
+            long per = hget(c, 3, 20); if (per < 1) per = 1; if (per > 40000) per = 40000;
+            vsched::step_limit = 80000000;
+            long_shape = true;
+            static std::vector<char> finished; finished.assign((size_t)nth + 2, 0);
+            for (int i = 0; i < nth; ++i)
+                th.emplace_back([&, i, per] {
+                    int tid = vsched::self();
+                    auto &ops = p.per[(size_t)i];
+                    for (long k = 0; k < per; ++k) {
+                        Op o = ops.empty() ? Op{(int)((k + i) % 3 == 0), 0, 0, 0} : ops[(size_t)k % ops.size()];
+                        o.b &= 1;   // no yields: the holder blocks on the harness condition instead
+                        do_op(res, o, tid, false, [&] {
+                            vsched::wait_until([&] {
+                                for (int t = 1; t <= nth; ++t) { if (t == tid || finished[(size_t)t]) continue; if (t >= vsched::nthreads()) return false; vsched::St st = vsched::state(t); if (st != vsched::B_CV && st != vsched::B_PRED) return false; }   // parked behind me, or a fellow reader waiting like me
+                                return true;
+                            });
+                        });
+                    }
+                    finished[(size_t)tid] = 1;
+                });
         } else if (shape == TWO_RESOURCES) {
             // a second, unrelated Resource that is only ever read-locked (so it can never block anybody): some requests on
             // the Resource under test are issued while the thread holds a read lock on the other one.  Locks of different
@@ -261,11 +285,12 @@ void exec_case(const Case &c) {
     }
     vsched::end();
     if (vsched::spurious_wakeups()) label("spurious_wakeup");
-    { std::string w = "W"; for (uint8_t x : vsched::widths()) w += (char)('0' + (x > 9 ? 9 : x)); aux(w); }
+    { std::string w = "W"; for (uint8_t x : vsched::widths()) { if (w.size() > 4000) break; w += (char)('0' + (x > 9 ? 9 : x)); } aux(w); }
 
     // C03: X was parked inside lock*() before Y was called, not both reads  =>  X returned first
     long pairs = 0, wpairs = 0;
-    for (auto &x : reqs) if (x.park >= 0)
+    if (long_shape) label_n("requests_in_one_busy_period", (long)reqs.size());
+    if (!long_shape || reqs.size() <= 600) for (auto &x : reqs) if (x.park >= 0)
         for (auto &y : reqs) if (&x != &y && y.call > x.park && (x.w || y.w)) {
             ++pairs; ++wpairs;
             if (!(x.ret >= 0 && y.ret >= 0 && x.ret < y.ret))
